@@ -31,12 +31,14 @@ ASSUMPTIONS = [
 ]
 TRUSTED = ["z3 5.1 (LIA)", "cvc5 / z3 (QF_BVFP lemma)", "vt.dtmodel", "vt.sym explorer"]
 BOUNDS = {"now": "unbounded Int us", "T": "unbounded Int us", "utcoffset": "(-24h, 24h) us", "host_offset": "whole minutes in [-14h, 14h]", "loops": "none in the code"}
-REQUIRED_COVERS = ["zero", "none", "delay", "naive", "aware"]
+REQUIRED_COVERS = ["zero", "none", "delay", "naive", "aware", "model_boundary"]
 
 DAYUS = 86400 * US
 
 
-def cases(tier: str) -> List[Any]:
+def cases(tier: str, hname: str = "harness") -> List[Any]:
+    if hname == "boundary":
+        return ["naive", "utc", "fixed", "pytz", "zoneinfo"]
     return ["naive", "aware_utc", "aware_offset"]
 
 
@@ -85,6 +87,51 @@ def harness(c: sym.Ctx, case: Any) -> None:
     c.event("result", r)
     c.cover("none" if r is None else ("zero" if isinstance(r, int) and r == 0 else "delay"))
     c.check(_spec(now, T, r), "one_shot_delay_spec", result=r)
+
+
+NOW_SAMPLES = [1_699_162_200 * US, 1_699_162_200 * US + 59 * US + 400_000, 1_700_000_000 * US + 123_456, 1_711_846_799 * US + 999_999]
+# 1_699_162_200 = 2023-11-05 05:30:00 UTC = 01:30 EDT, half an hour before New York falls back (the repeated hour)
+DELTAS = [-US, 0, 500_000, 10 * US, 30 * US + 250_000, 61 * US + 500_000, 2 * 3600 * US, -3 * 3600 * US]
+
+
+def boundary(c: sym.Ctx, case: Any) -> None:
+    """Model boundary: sampled concrete instants and target times of every tzinfo flavour go through the real ScheduledTask
+    model (its validators / normalisation) into the real get_task_delay; the result must satisfy the same specification."""
+    import datetime as real_dt
+    import zoneinfo
+
+    import pytz
+    from taskiq.scheduler.scheduled_task import ScheduledTask
+
+    c.cover("model_boundary")
+    now = NOW_SAMPLES[c.choose(len(NOW_SAMPLES), "now")]
+    d = DELTAS[c.choose(len(DELTAS), "delta")]
+    at_horizon = c.flag("exactly_on_the_horizon")
+    T = (now - now % MIN + MIN + US) if at_horizon else now + d
+    utc = _sched.EPOCH_UTC + real_dt.timedelta(microseconds=T)
+    if case == "naive":
+        t = utc.replace(tzinfo=None)
+    elif case == "utc":
+        t = utc
+    elif case == "fixed":
+        t = utc.astimezone(real_dt.timezone(real_dt.timedelta(hours=5, minutes=30)))
+    elif case == "pytz":
+        tz = pytz.timezone(c.choose(["America/New_York", "Europe/Berlin", "Australia/Lord_Howe"], "zone"))
+        t = tz.normalize(utc.astimezone(tz))
+    else:
+        t = utc.astimezone(zoneinfo.ZoneInfo(c.choose(["America/New_York", "Asia/Kolkata"], "zone")))
+    task = ScheduledTask(task_name="t", labels={}, args=[], kwargs={}, time=t)
+    with _sched.real_run_module(now, 0) as run:
+        try:
+            r = run.get_task_delay(task)
+        except Exception as exc:  # noqa: BLE001
+            c.check(False, "unexpected_exception", exc=repr(exc))
+            return
+    c.event("now", now, "T", T, "tz", case, "result", r)
+    c.check(bool(_spec(now, T, r)), "one_shot_delay_spec", result=r, now=now, T=T, tz=case, time=str(t))
+
+
+HARNESSES = {"harness": harness, "boundary": boundary}
 
 
 def extra(tier: str, seed: int) -> List[Dict[str, Any]]:
